@@ -233,6 +233,89 @@ def gen_cases(r, tier):
             add('rule t { condition: true } rule u { condition: t }', "long-namespace", mode, ns="N" * k)
             add('rule t { condition: ', "long-namespace", mode, ns="N" * k, fname=("F" * k if mode in ("F", "D") else None))
             add('include "inc1" rule t { condition: inc_rule and nosuch }', "long-file-name", mode, fname=("F" * k + "/g.yar" if mode in ("F", "D") else None))
+    # ---- LINE ORACLE: several independent errors / warnings at known lines; the reported (level, line, file) list must be exactly the expected one.
+    # Every erroneous construct sits on one line together with the token that follows it (so the parser's look-ahead cannot move the line), except string
+    # definitions inside multi-line rules, whose diagnostics carry the line of the definition.
+    ITEMS = {"good": (["rule g%d { condition: true }"], []),
+             "E_hex": (["rule e%d { strings: $a = { 01 [2-1] 02 } condition: $a }"], [("E", 0)]),
+             "E_re": (["rule e%d { strings: $a = /a{2,1}/ condition: $a }"], [("E", 0)]),
+             "E_undef": (["rule e%d { condition: nosuch%d == 1 }"], [("E", 0)]),
+             "E_dup": (['rule e%d { strings: $a = "abcd" $a = "efgh" condition: $a }'], [("E", 0)]),
+             "E_type": (['rule e%d { condition: "a" + 1 == 2 }'], [("E", 0)]),
+             "E_unref": (['rule e%d { strings: $a = "abcd" condition: true }'], [("E", 0)]),
+             "E_empty": (['rule e%d { strings: $a = "" condition: $a }'], [("E", 0)]),
+             "E_syn": (["rule e%d { condition: true and }"], [("E", 0)]),
+             "W_slow": (["rule w%d { strings: $a = { 00 00 } condition: $a }"], [("W", 0)]),
+             "W_re": (["rule w%d { strings: $a = /.*abc/ condition: $a }"], [("W", 0)]),
+             "W_of": (['rule w%d { strings: $a = "abcd" condition: 2 of ($a) }'], [("W", 0)]),
+             "W_dep": (["rule w%d { condition: entrypoint == 0 }"], [("W", 0)]),
+             "M_hex": (["rule m%d {", "  strings:", '    $a = "abcd"', "    $b = { 01 [2-1] 02 }", "  condition:", "    $a", "}"], [("E", 3)]),
+             "M_re": (["rule m%d {", "  meta:", '    k = "v"', "  strings:", "    $b = /a{2,1}/ nocase", '    $c = "abcd"', "  condition: $c", "}"], [("E", 4)]),
+             "M_dup": (["rule m%d {", "  strings:", '    $a = "abcd"', "", '    $a = "efgh"', "  condition:", "    $a }"], [("E", 4)]),
+             "M_warn": (["rule m%d {", "  strings:", "    $a = { 00 00 }", '    $b = "abcd"', "  condition:", "    $a or $b", "}"], [("W", 2)]),
+             "M_good": (["rule m%d {", "  strings:", '    $a = "abcd"', "  condition:", "    $a", "}"], [])}
+    SEPS = ["", "", "\n", "\n\n\n", "// comment", "/* multi\nline\ncomment */", "   ", "// a\n// b"]
+    uidc = [0]
+    def build(n_items, tag, first_line=1):
+        lines, exp, ln = [], [], first_line
+        for k in range(n_items):
+            for sep in [r.choice(SEPS)]:
+                for sl in (sep.split("\n") if sep else []):
+                    lines.append(sl); ln += 1
+            name = r.choice(sorted(ITEMS))
+            text, diags = ITEMS[name]
+            for lv, off in diags:
+                exp.append((lv, ln + off))
+            uidc[0] += 1; uid = uidc[0]
+            for tl in text:
+                lines.append(tl % ((uid,) * tl.count("%d"))); ln += 1
+        return "\n".join(lines) + "\n", exp
+    for _ in range(70 if quick else 1500):
+        src, exp = build(r.randint(3, 8), "m")
+        mode = r.choice(["S", "S", "B", "F", "D"])
+        fn = {"F": "mem.yar", "D": "fd.yar"}.get(mode, "-")
+        units, uexp = [], []
+        if not any(lv == "E" for lv, _ in exp) and r.random() < 0.8:      # further units are only added while no error occurred
+            for _u in range(r.randint(1, 2)):
+                us, ue = build(r.randint(2, 5), "u")
+                units.append(us); uexp += [(lv, l, "-") for lv, l in ue]
+                if any(lv == "E" for lv, _l in ue): break
+        expected = ",".join("%s%d@%s" % (lv, l, fn) for lv, l in exp) + ("," if exp and uexp else "") + ",".join("%s%d@%s" % x for x in uexp)
+        add(src, "line-oracle|" + (expected or "-"), mode, units=units)
+    for _ in range(20 if quick else 300):                                   # diagnostics inside an included file carry the include's name and its own lines
+        inc, iexp = build(r.randint(2, 5), "i")
+        pre, pexp = build(r.randint(1, 3), "p")
+        pre_lines = pre.count("\n")
+        post, qexp = build(r.randint(1, 3), "q", first_line=pre_lines + 2)
+        src = pre + 'include "incL"\n' + post
+        if any(lv == "E" for lv, _ in pexp):
+            continue
+        expected = ",".join(["%s%d@-" % x for x in pexp] + ["%s%d@incL" % x for x in iexp] + ["%s%d@-" % x for x in qexp])
+        add(src, "line-oracle|" + (expected or "-"), "S", {"incL": inc})
+    # constant expressions at the arithmetic boundaries (a signal in the compiler is a CRASH observation of the forked child)
+    MIN = "(-9223372036854775807 - 1)"
+    for e in ["%s %% -1 == 0" % MIN, "%s \\ -1 == 0" % MIN, "%s %% 1 == 0" % MIN, "%s \\ 1 == 0" % MIN, "%s %% 0 == 0" % MIN, "%s \\ 0 == 0" % MIN, "1 %% 0 == 0", "1 \\ 0 == 0",
+              "-1 %% -1 == 0", "9223372036854775807 %% -1 == 0", "9223372036854775807 \\ -1 == 0", "%s * -1 == 0" % MIN, "-%s == 0" % MIN, "%s - 1 == 0" % MIN,
+              "9223372036854775807 + 1 == 0", "9223372036854775807 * 9223372036854775807 == 0", "%s * %s == 0" % (MIN, MIN), "1 << 63 == 0", "1 << 64 == 0", "1 << 65 == 0",
+              "-1 >> 63 == 0", "-1 >> 64 == 0", "1 << -1 == 0", "%s >> 1 == 0" % MIN, "%s << 1 == 0" % MIN, "~%s == 0" % MIN, "%s & -1 == 0" % MIN, "0 %% -1 == 0", "0 \\ -1 == 0",
+              "(%s %% -1) \\ (%s %% -1) == 0" % (MIN, MIN), "filesize %% -1 == 0", "filesize \\ -1 == 0", "%s %% (0 - 1) == 0" % MIN, "%s \\ (1 - 2) == 0" % MIN,
+              "#a %% -1 == 0", "@a[1] \\ -1 == 0", "1.5 \\ 0 == 0", "1 \\ 0.0 == 0", "%s \\ -1.0 == 0" % MIN]:
+        e = e.replace("%%", "%")
+        add('rule ce { strings: $a = "abcd" condition: %s or $a }' % e, "constant-expression")
+        add('rule ce { strings: $a = "abcd" condition: $a at (%s) or $a }' % e.rsplit(" == 0", 1)[0], "constant-expression")
+        add('rule ce { strings: $a = "abcd" condition: for any i in (0..(%s)) : ( i == 1 ) or $a }' % e.rsplit(" == 0", 1)[0], "constant-expression")
+    # chaining points (jumps above the chain threshold of 200) at every grammar-valid position of a regexp / hex string: first, last, next to groups and alternations
+    J = [".{0,300}?", ".{250,}?", ".{201,300}?", ".{0,300}", ".{250,}", ".{201}", ".{300}?", ".*?", ".{0,200}?", ".{0,201}?"]
+    for j in J:
+        for body in ["abc%s", "%sabc", "abc%sdef", "abc%s%s", "%s", "a%sb%sc", "(abc%s)", "(abc|def)%s", "%s(abc|def)", "abc(%s)def", "abc%s|def", "abc|def%s", "abc%s$", "^%sabc",
+                     "abc%s\\b", "abc(%sdef)?", "abc[a-z]%s", "abc%s[a-z]", "(abc%s)+def", "abc%s?def"]:
+            rx = body.replace("%s", j)
+            add('rule cp { strings: $a = /%s/ condition: $a }' % rx, "chaining-point")
+        add('rule cp { strings: $a = /abc%s/ wide nocase $b = /%sabc/ fullword condition: $a or $b }' % (j, j), "chaining-point")
+    for hj in ["[250-300]", "[201-]", "[201]", "[0-300]", "[-]", "[200]", "[0-200]", "[1000-2000]"]:
+        for body in ["61 62 %s", "%s 61 62", "61 62 %s 63", "61 %s 62 %s 63", "61 %s %s 62", "( 61 | 62 ) %s 63", "61 %s ( 62 | 63 )", "61 ( 62 %s 63 | 64 ) 65", "61 ( 62 | 63 %s ) 64",
+                     "61 ( %s 62 | 63 ) 64", "61 ?? %s ?? 62", "61 %s ~62", "6? %s ?2"]:
+            add('rule cp { strings: $a = { %s } condition: $a }' % body.replace("%s", hj), "chaining-point")
     # oversized tokens around YR_LEX_BUF_SIZE (8192) and far beyond
     L = 8192
     for n in [L - 3, L - 2, L - 1, L, L + 1, L + 2, 2 * L, 70000] + ([] if quick else [1 << 20]):
@@ -463,7 +546,7 @@ def run(tier, replay=None):
     nprob = 0
     for l in out:
         cid = l.split(" ", 1)[0]
-        hist[meta.get(cid, "?")] += 1
+        hist[meta.get(cid, "?").split("|")[0]] += 1
         if l.startswith(cid + " ok "):
             f = dict(kv.split("=", 1) for kv in l.split(" ")[2:] if "=" in kv)
             kinds[f.get("kind", "-")] += 1
@@ -474,6 +557,11 @@ def run(tier, replay=None):
             if int(f["errs"]) > 0 and meta.get(cid) != "valid":
                 nontrivial.add(byid[cid].split(" ", 1)[1])
             p = protocol_problem(f)
+            if p is None and meta.get(cid, "").startswith("line-oracle|"):
+                want = meta[cid].split("|", 1)[1]
+                outcomes["line_oracle_checked"] += 1
+                if f.get("diag") != want:
+                    p = "line provenance: diagnostics (level line @file, in order) reported %s, expected %s" % (f.get("diag"), want)
             if p and f["msgok"] != "1":
                 # a listed finding names the error code whose message is empty; any other code with an empty message is a violation
                 kf = [x for x in known if x["signature"].get("empty_message") and x["signature"].get("last_error") == f.get("lasterr")]
@@ -494,7 +582,13 @@ def run(tier, replay=None):
     n = 0
     for (kind, fn), lst in sorted(sigs.items()):
         outcomes["report:%s@%s" % (kind, fn)] = len(lst)
-        kf = [f for f in known if f["signature"].get("kind") == kind and f["signature"].get("function") == fn]
+        def top_frame(l):
+            m = re.search(r"#0 0x[0-9a-f]+ in \S+ (\S+?):(\d+)", l)
+            return "%s:%s" % (os.path.basename(m.group(1)), m.group(2)) if m else "-"
+        kf = [f for f in known if f["signature"].get("kind") == kind and (f["signature"].get("function") == fn or
+                                                                           ("frame" in f["signature"] and all(top_frame(l) in [g["signature"].get("frame") for g in known if g["signature"].get("kind") == kind] for _c, l in lst)))]
+        if kf and any(k[0]["id"] == kf[0]["id"] for k in chk.known_hit):
+            continue
         if kf:
             chk.known(kf[0], "%s %s (%s) on %d input(s), e.g. `%s`" % (kf[0]["id"], kind, fn, len(lst),
                                                                      bytes.fromhex(lst[0][0].split(" ")[2].replace("-", ""))[:120].decode("latin1")))
